@@ -432,7 +432,8 @@ def placeholder(P, rep, key):
             m = re.match(r"^\((.*):Some\.0 == (0x[0-9a-f]+|\d+)\)$", sh)
             if m and int(m.group(2), 0) == ord("@"):
                 is_at = t
-            m = re.match(r"^\((.*and_then.*)#d == ([01])\)$", sh)
+            # the operand looked up: Option::and_then kept opaque, or (adaptors read as the ladders they abbreviate) slice::get itself
+            m = re.match(r"^\((.*and_then.*|slice::<impl \[T\]>::get\(arguments\*, .*to_digit.*)#d == ([01])\)$", sh)
             if m:
                 found = (m.group(2) == "1") == t
         if is_at is None:
@@ -440,7 +441,7 @@ def placeholder(P, rep, key):
             continue
         if is_at and found:
             kinds.add("replace")
-            ok = len(pstrs) == 1 and not pushes and len(nexts) == 2 and "and_then" in str(pstrs[0][2][1]) and ":Some.0" in str(pstrs[0][2][1])
+            ok = len(pstrs) == 1 and not pushes and len(nexts) == 2 and ("and_then" in str(pstrs[0][2][1]) or str(pstrs[0][2][1]).startswith("slice::<impl [T]>::get(arguments*, ")) and ":Some.0" in str(pstrs[0][2][1])
             if not ok:
                 why.append("`@` + digit with an operand behind it does not append exactly that operand and consume the digit (appends %s, %d characters taken)" % (
                     [str(x[2][1])[:50] for x in pstrs + pushes], len(nexts)))
